@@ -43,13 +43,32 @@ fn tag_of(s: &Spec) -> u8 {
         Spec::Foci { .. } => 0x42,
         Spec::SwapGainStm(..) => 0x43,
         Spec::SwapFoci(..) => 0x44,
-        Spec::Fan(_) => 0x60,
-        Spec::Reads(_) => 0x61,
+        Spec::Fan(_) | Spec::FanMask(_) => 0x60,
+        Spec::Reads(_) | Spec::ReadsMask(_) => 0x61,
         Spec::Pwe(_) | Spec::PweDefault => 0x72,
         Spec::PhaseCorr(_) => 0x80,
-        Spec::Debug(_) => 0xF0,
-        Spec::GpioIn(_) => 0xF1,
-        Spec::CpuGpio(_) => 0xF2,
+        Spec::Debug(_) | Spec::DebugDev(_) => 0xF0,
+        Spec::GpioIn(_) | Spec::GpioInDev(_) => 0xF1,
+        Spec::CpuGpio(_) | Spec::CpuGpioDev(_) => 0xF2,
+    }
+}
+
+/// `Operation::required_size` of the first pack of a datagram (independent re-statement for the boundary table)
+fn req_size(s: &Spec) -> usize {
+    match tag_of(s) {
+        0x01 | 0x02 | 0x03 | 0x31 | 0x60 | 0x61 | 0xF1 | 0xF2 => 2,
+        0x21 => 6,
+        0x11 | 0x43 | 0x44 => 16,
+        0xF0 => 40,
+        0x80 => 2 + ((NUM_TR + 1) & !1),
+        0x30 => 4 + 2 * NUM_TR,
+        0x72 => 2 + 512,
+        0x41 => 16 + 2 * NUM_TR,
+        0x42 => match s {
+            Spec::Foci { n, .. } => 24 + 8 * n,
+            _ => unreachable!(),
+        },
+        _ => 16 + 2, // modulation head + one (padded) sample
     }
 }
 
@@ -123,7 +142,7 @@ fn different_resources(a: &Spec, b: &Spec) -> bool {
 }
 
 fn snapshot(w: &World) -> Vec<String> {
-    w.cpus.iter().map(|c| ALL_RES.iter().map(|r| format!("{}|{}", res_obs(c, *r), res_dyn(c, *r))).collect::<Vec<_>>().join(";")).collect()
+    w.cpus.iter().map(|c| ALL_RES.iter().map(|r| guarded(|| format!("{}|{}", res_obs(c, *r), res_dyn(c, *r))).unwrap_or_else(|m| format!("P:{}", panic_key(&m)))).collect::<Vec<_>>().join(";")).collect()
 }
 
 fn frames_of(ndev: usize, s: &Spec) -> usize {
@@ -134,34 +153,76 @@ fn frames_of(ndev: usize, s: &Spec) -> usize {
 }
 
 fn run_pair(out: &mut Out, ndev: usize, a: &Spec, b: &Spec) {
+    run_pair_h(out, ndev, &[], a, b)
+}
+
+fn sdk_err(r: &str) -> bool {
+    r.starts_with("err:") && !r.starts_with("err:fw:")
+}
+
+/// `hist`: datagrams sent (one by one, on both worlds) between the lax silencer and the tuple: write cursors, page
+/// registers, pending transitions and message ids are then not those of a fresh device (review C03 gaps 3, 5)
+fn run_pair_h(out: &mut Out, ndev: usize, hist: &[Spec], a: &Spec, b: &Spec) {
     let mut s = Session::new(out, ndev, T0);
     s.send(&Spec::Clear);
     s.send(&Spec::SilSteps(1, 1, false));
-    s.w.keep_frames = true;
-    let ids: Vec<u8> = s.w.tx.iter().map(|t| t.header.msg_id).collect();
-    let ans = s.pair(a, b);
-    let log = s.log.clone();
-    let mut verdict = None;
-    let key = format!("C03:({} , {}):n{ndev}", a.text(), b.text());
-    if ans == "panic" {
+    for h in hist {
+        s.send(h);
+    }
+    let hkey: String = if hist.is_empty() {
+        String::new()
+    } else {
+        // runs of the same kind are written `kind*count`
+        let mut parts: Vec<(&str, usize)> = vec![];
+        for h in hist {
+            match parts.last_mut() {
+                Some((k, n)) if *k == h.kind() => *n += 1,
+                _ => parts.push((h.kind(), 1)),
+            }
+        }
+        format!(":after[{}]", parts.iter().map(|(k, n)| if *n > 1 { format!("{k}*{n}") } else { k.to_string() }).collect::<Vec<_>>().join(","))
+    };
+    let key = format!("C03:({} , {}):n{ndev}{hkey}", a.text(), b.text());
+    if s.dead {
         out.case(None);
         out.count("not-evaluable:panic");
         return;
     }
-    let nframes: usize = ans.split(' ').find_map(|x| x.strip_prefix("N=")).and_then(|x| x.parse().ok()).unwrap_or(0);
-    if let Some(m) = frames_well_formed(&s.w, &ids, a, b) {
-        verdict = Some(m);
-    }
+    s.w.keep_frames = true;
+    let ids: Vec<u8> = s.w.tx.iter().map(|t| t.header.msg_id).collect();
+    // the REAL tuple type (A, B): `impl Datagram for (D1, D2)` + `CombinedOperationGenerator` (review C03 gap 1)
+    let ans = s.pair_real(a, b);
+    let log = s.log.clone();
+    let mut verdict = None;
     // silent world: A then B
     let mut w2 = World::new(ndev, T0);
     let r2 = guarded(|| {
         let _ = w2.send_spec(&Spec::Clear, usize::MAX);
         let _ = w2.send_spec(&Spec::SilSteps(1, 1, false), usize::MAX);
+        for h in hist {
+            let _ = w2.send_spec(h, usize::MAX);
+        }
         let ra = w2.send_spec(a, usize::MAX);
         let rb = w2.send_spec(b, usize::MAX);
         (ra.result, rb.result, ra.frames, rb.frames)
     });
+    if ans == "panic" {
+        let msg = s.panic_msg.clone().unwrap_or_default();
+        out.case(None);
+        out.count("not-evaluable:panic");
+        // two members writing the same resource interleave their frames: what the emulator does then is C19's subject
+        if r2.is_ok() && different_resources(a, b) {
+            out.violation(key, format!("the tuple panicked ({msg}) but its parts sent in order do not"), log);
+        }
+        return;
+    }
+    let nframes: usize = ans.split(' ').find_map(|x| x.strip_prefix("N=")).and_then(|x| x.parse().ok()).unwrap_or(0);
+    let res: String = ans.split(' ').find_map(|x| x.strip_prefix("R=")).unwrap_or("").to_string();
+    if let Some(m) = frames_well_formed(&s.w, &ids, a, b) {
+        verdict = Some(m);
+    }
     let slot2_used = s.w.frames.iter().any(|(_, f)| f[2] != 0 || f[3] != 0);
+    let wrapped = s.w.frames.iter().any(|(d, f)| f[0] < ids[*d]);
     let snap1 = snapshot(&s.w);
     let nontrivial;
     match r2 {
@@ -176,6 +237,21 @@ fn run_pair(out: &mut Out, ndev: usize, a: &Spec, b: &Spec) {
             if verdict.is_none() && both_ok && ans.starts_with("R=ok") && nframes > fa + fb {
                 verdict = Some(format!("the tuple needed {nframes} frames, its parts {fa} + {fb}"));
             }
+            // which member's refusal the tuple reports (`operation_generator` of the tuple: first member's error first;
+            // pack order: first member first). Only refusals by the SDK itself (not firmware acks) with no frame sent.
+            if verdict.is_none() && sdk_err(&ra) && fa == 0 && (rb == "ok" || sdk_err(&rb)) {
+                if res == "ok" {
+                    verdict = Some(format!("the first member alone is refused ({ra}) but the tuple is accepted"));
+                } else if rb == "ok" && res != ra {
+                    verdict = Some(format!("the first member alone is refused with {ra}, the second accepted, but the tuple answered {res}"));
+                }
+                out.count("refused-member:first");
+            } else if verdict.is_none() && ra == "ok" && sdk_err(&rb) && fb == 0 {
+                if res != rb {
+                    verdict = Some(format!("the second member alone is refused with {rb}, the first accepted, but the tuple answered {res}"));
+                }
+                out.count("refused-member:second");
+            }
             if verdict.is_none() && both_ok && different_resources(a, b) {
                 if !ans.starts_with("R=ok") {
                     verdict = Some(format!("both members are accepted alone but the tuple answered {}", ans.split(' ').next().unwrap_or("")));
@@ -189,6 +265,13 @@ fn run_pair(out: &mut Out, ndev: usize, a: &Spec, b: &Spec) {
     }
     out.case(if nontrivial { Some(fnv64(key.as_bytes())) } else { None });
     out.count(&format!("pair:{}+{}", a.kind(), b.kind()));
+    out.count("real-tuple-type");
+    if !hist.is_empty() {
+        out.count("dirty-start");
+    }
+    if wrapped {
+        out.count("msg-id-wrap-inside-tuple");
+    }
     if nframes > 1 {
         out.count("multi-frame");
     }
@@ -275,6 +358,20 @@ fn c03_members(rng: &mut Rng, thorough: bool) -> Vec<Spec> {
         Spec::SwapGain(1, (0xFF, 0)),
         Spec::Clear,
         Spec::Sync,
+        // review C03 gap 4: the 16-byte swaps of tags 0x43 / 0x44, a 64-bit SysTime value in a head, the two GPIO datagrams
+        Spec::SwapFoci(1, (0xFF, 0)),
+        Spec::SwapGainStm(1, (0xFF, 0)),
+        Spec::Mod { seg: 1, tr: Some((0x01, T0 + 0x0123_4567_89AB)), rep: 3, div: 10, n: 300, seed: 16 },
+        Spec::Foci { n: 2, seg: 1, tr: Some((0x02, 3)), rep: 2, div: 100, ss: 21760, size: 50, seed: 17 },
+        Spec::GpioIn(0b1001),
+        Spec::CpuGpio(0x80),
+        // members whose content depends on the device (two-device pairs): per-device closures inside the real tuple
+        Spec::FanMask(0b10),
+        Spec::DebugDev([0x21u64 << 56 | 7, 0xE0u64 << 56 | 248, 0x60u64 << 56 | 0x1234_5678_9A, 0x52u64 << 56]),
+        // refused by the SDK at the first pack when alone: which member's error a tuple reports (members refused when the
+        // generator is built: `generator_time_refusals`, implementation only)
+        Spec::Mod { seg: 0, tr: None, rep: 0xFFFF, div: 10, n: 1, seed: 19 },
+        Spec::Gain { seg: 0, tr: Some((0x00, 0)), seed: 20 },
     ];
     if thorough {
         for _ in 0..10 {
@@ -284,6 +381,51 @@ fn c03_members(rng: &mut Rng, thorough: bool) -> Vec<Spec> {
         }
     }
     v
+}
+
+/// `impl Datagram for (D1, D2)::operation_generator`: both members' generators are built, the FIRST member's error is
+/// reported when both fail, nothing is sent. The firmware-stream model validates sizes when packing, so these tuples
+/// run on the implementation only (one `note` line).
+fn generator_time_refusals(out: &mut Out) {
+    let bad = [
+        (Spec::GainStm { mode: 0, seg: 0, tr: None, rep: 0xFFFF, div: 100, size: 1, seed: 18 }, "err:GainSTMSizeOutOfRange"),
+        (Spec::Foci { n: 1, seg: 1, tr: None, rep: 0xFFFF, div: 100, ss: 21760, size: 1, seed: 21 }, "err:FociSTMTotalSizeOutOfRange"),
+        (Spec::GainStm { mode: 1, seg: 1, tr: None, rep: 0xFFFF, div: 100, size: 1025, seed: 22 }, "err:GainSTMSizeOutOfRange"),
+    ];
+    let good = [Spec::Fan(true), Spec::Mod { seg: 0, tr: None, rep: 0xFFFF, div: 10, n: 900, seed: 23 }, Spec::Gain { seg: 1, tr: None, seed: 24 }];
+    let mut pairs: Vec<(Spec, Spec, &str)> = vec![];
+    for (i, (x, ex)) in bad.iter().enumerate() {
+        for (j, (y, _)) in bad.iter().enumerate() {
+            if i != j {
+                pairs.push((x.clone(), y.clone(), ex));
+            }
+        }
+        for g in &good {
+            pairs.push((x.clone(), g.clone(), ex));
+            pairs.push((g.clone(), x.clone(), ex));
+        }
+    }
+    for (a, b, want) in pairs {
+        let r = guarded(|| {
+            let mut w = World::new(2, T0);
+            let _ = w.send_spec(&Spec::Clear, usize::MAX);
+            let before = snapshot(&w);
+            let o = w.send_tuple_spec(&a, &b, usize::MAX);
+            (o.result, o.frames, before != snapshot(&w))
+        });
+        out.case(Some(fnv64(format!("gen-refusal|{}|{}", a.text(), b.text()).as_bytes())));
+        out.count("generator-time-refusal-in-tuple");
+        let key = format!("C03:refusal:({} , {})", a.text(), b.text());
+        match r {
+            Ok((res, n, changed)) => {
+                if res != want || n != 0 || changed {
+                    out.violation(key, format!("the tuple answered {res} after {n} frame(s){}; expected {want} (the first refused member's error) and nothing sent", if changed { ", device state changed" } else { "" }), vec![format!("send pair {} | {}", a.text(), b.text())]);
+                }
+            }
+            Err(p) => out.violation(key, format!("panic: {p}"), vec![format!("send pair {} | {}", a.text(), b.text())]),
+        }
+    }
+    out.line("note generator-time refusals in tuples", "ok");
 }
 
 pub fn run_c03(args: &Args) {
@@ -297,6 +439,27 @@ pub fn run_c03(args: &Args) {
             run_pair(&mut out, ndev, a, b);
         }
     }
+    // review C03 gap 3: the same pairs from a dirty start. h1: both write pages / cursors beyond the first page, a
+    // GainSTM and a phase correction in place; h2: segment 1 holds a FociSTM (so SwapSegment::FociSTM is acceptable),
+    // a finite-loop modulation is pending on a SyncIdx transition
+    let h1 = vec![
+        Spec::Mod { seg: 0, tr: None, rep: 0xFFFF, div: 10, n: 33000, seed: 41 },
+        Spec::GainStm { mode: 0, seg: 1, tr: None, rep: 0xFFFF, div: 100, size: 70, seed: 42 },
+        Spec::PhaseCorr(43),
+    ];
+    let h2 = vec![
+        Spec::Foci { n: 2, seg: 1, tr: None, rep: 0xFFFF, div: 100, ss: 21760, size: 2100, seed: 44 },
+        Spec::Mod { seg: 1, tr: Some((0x00, 0)), rep: 0, div: 10, n: 4, seed: 45 },
+    ];
+    for (i, a) in members.iter().enumerate() {
+        for (j, b) in members.iter().enumerate() {
+            if !thorough && (i * 7 + j * 3) % 4 != 0 && !matches!(a, Spec::SwapFoci(..) | Spec::SwapGainStm(..)) && !matches!(b, Spec::SwapFoci(..) | Spec::SwapGainStm(..)) {
+                continue; // quick tier: a quarter of the pairs (every pair with a 16-byte STM swap)
+            }
+            let ndev = if (i + j) % 4 == 1 { 2 } else { 1 };
+            run_pair_h(&mut out, ndev, if (i + 2 * j) % 2 == 0 { &h1 } else { &h2 }, a, b);
+        }
+    }
     // second slot starts fitting mid-stream: a modulation whose last chunk leaves exactly / just not enough room
     for tail in [0usize, 1, 2, 100, 110, 111, 112, 113, 114, 115, 116, 117, 118, 119, 120, 600, 610, 612, 614, 616, 617, 618] {
         let n = 254 + 618 + tail;
@@ -304,6 +467,83 @@ pub fn run_c03(args: &Args) {
         for b in [Spec::Gain { seg: 0, tr: Some((0xFF, 0)), seed: 1 }, Spec::SilSteps(2, 3, false), Spec::Debug([0, 0, 0, 0]), Spec::Pwe(1), Spec::Foci { n: 2, seg: 1, tr: None, rep: 0xFFFF, div: 100, ss: 21760, size: 40, seed: 2 }] {
             run_pair(&mut out, 1, &a, &b);
             run_pair(&mut out, 1, &b, &a);
+        }
+    }
+    // review C03 gap 2: exact-fit / just-short space for EVERY kind of second member. `required_size` is the promise
+    // `pack_op2` relies on; a too small one writes past the slot only when the space left lies between the promised
+    // and the real size. Space left behind a first member A still in flight:
+    //   one-frame modulation of n samples        606 - even(n)   (352..604)
+    //   last frame of a three-frame modulation   618 - even(tail) (for members that do not fit behind the first frame)
+    //   one-frame FociSTM<1> of m points         598 - 8 m        (6, 14, 22, …: the only way to crowd a small member)
+    {
+        let foci_hist = vec![Spec::Foci { n: 1, seg: 1, tr: None, rep: 0xFFFF, div: 100, ss: 21760, size: 5, seed: 46 }];
+        let gstm_hist = vec![Spec::GainStm { mode: 0, seg: 1, tr: None, rep: 0xFFFF, div: 100, size: 2, seed: 47 }];
+        let mut bs: Vec<(Spec, Vec<Spec>)> = vec![
+            (Spec::Gain { seg: 1, tr: None, seed: 1 }, vec![]),
+            (Spec::Pwe(1), vec![]),
+            (Spec::GainStm { mode: 0, seg: 1, tr: None, rep: 0xFFFF, div: 100, size: 2, seed: 2 }, vec![]),
+            (Spec::PhaseCorr(3), vec![]),
+            (Spec::Debug([0x21u64 << 56 | 3, 0, 0x10u64 << 56, 0xF0u64 << 56 | 1]), vec![]),
+            (Spec::SwapMod(1, (0xFF, 0)), vec![]),
+            (Spec::SwapFoci(1, (0xFF, 0)), foci_hist.clone()),
+            (Spec::SwapGainStm(1, (0xFF, 0)), gstm_hist.clone()),
+            (Spec::SwapGain(1, (0xFF, 0)), vec![]),
+            (Spec::SilSteps(2, 3, false), vec![]),
+            (Spec::SilRate(9, 7), vec![]),
+            (Spec::Fan(true), vec![]),
+            (Spec::Reads(true), vec![]),
+            (Spec::Sync, vec![]),
+            (Spec::GpioIn(0b0110), vec![]),
+            (Spec::CpuGpio(0x20), vec![]),
+        ];
+        for n in 1..=8usize {
+            bs.push((Spec::Foci { n, seg: 1, tr: None, rep: 0xFFFF, div: 100, ss: 21760, size: if n == 1 { 2 } else { 1 }, seed: 50 + n as u64 }, vec![]));
+        }
+        let mut fits = 0u64;
+        let mut shorts = 0u64;
+        for (b, hist) in &bs {
+            let r = req_size(b) as i64;
+            let mut firsts: Vec<(Spec, i64)> = vec![]; // (A, space left behind A's frame in which B is first tried with A in flight)
+            for left in [r - 2, r, r + 2] {
+                if (352..=604).contains(&left) && left % 2 == 0 {
+                    for n in [606 - left, 606 - left - 1] {
+                        if (2..=254).contains(&n) {
+                            firsts.push((Spec::Mod { seg: 0, tr: None, rep: 0xFFFF, div: 10, n: n as usize, seed: 60 }, left));
+                        }
+                    }
+                }
+                if r > 352 && (0..=616).contains(&left) && left % 2 == 0 {
+                    for tail in [618 - left, 618 - left - 1] {
+                        if tail >= 1 {
+                            firsts.push((Spec::Mod { seg: 0, tr: None, rep: 0xFFFF, div: 10, n: 254 + 618 + tail as usize, seed: 61 }, left));
+                        }
+                    }
+                }
+            }
+            if r <= 590 {
+                let m1 = (598 - r) / 8; // largest m with 598 - 8m >= r
+                for m in [m1, m1 + 1] {
+                    if (2..=74).contains(&m) {
+                        firsts.push((Spec::Foci { n: 1, seg: 0, tr: None, rep: 0xFFFF, div: 100, ss: 21760, size: m as usize, seed: 62 }, 598 - 8 * m));
+                    }
+                }
+            }
+            for (a, left) in &firsts {
+                if *left >= r { fits += 1 } else { shorts += 1 }
+                run_pair_h(&mut out, 1, hist, a, b);
+                run_pair_h(&mut out, 1, hist, b, a);
+            }
+        }
+        out.count_n("boundary-table:second-member-fits", fits);
+        out.count_n("boundary-table:second-member-just-short", shorts);
+    }
+    // review C03 gap 5: the message id wraps (0x7F -> 0) inside a tuple send: 123 one-frame sends first
+    {
+        let pre: Vec<Spec> = (0..123).map(|k| Spec::Fan(k % 2 == 0)).collect();
+        let a = Spec::Mod { seg: 0, tr: None, rep: 0xFFFF, div: 10, n: 254 + 618 + 30, seed: 63 };
+        for b in [Spec::Gain { seg: 1, tr: None, seed: 64 }, Spec::Foci { n: 3, seg: 1, tr: None, rep: 0xFFFF, div: 100, ss: 21760, size: 60, seed: 65 }] {
+            run_pair_h(&mut out, 2, &pre, &a, &b);
+            run_pair_h(&mut out, 1, &pre, &b, &a);
         }
     }
     // the strict-silencer guard couples Silencer with every sampling division: a multi-frame write with a transition
@@ -357,11 +597,12 @@ pub fn run_c03(args: &Args) {
         }
     }
     out.count_n("page-aligned-tuples", aligned as u64);
+    generator_time_refusals(&mut out);
     let _ = frames_of;
     out.sample("reset 1 … / send clear / send silsteps 1 1 0 / send pair mod 1 - 3 10 972 6 | gain 0 255:0 1".into());
     out.finish(
         "fw_c03",
-        "a case = one ordered pair (A, B) sent as a tuple on world 1 and as A then B on a silent world 2; non-trivial = both members accepted alone; distinct by (A, B, device count)",
+        "a case = one ordered pair (A, B) sent as the REAL tuple type (A, B) on world 1 (after an optional dirty history) and as A then B on a silent world 2; non-trivial = both members accepted alone; distinct by (A, B, device count, history kinds). Invisible to the model (same `send pair` line, more varied real inputs): real tuple type, boundary table, dirty starts, id wrap; oracle-only: which member's refusal a tuple reports, tuple panics",
     );
 }
 
@@ -411,69 +652,122 @@ pub fn run_c17(args: &Args) {
     let thorough = args.tier == "thorough";
     let mut rng = Rng::new(args.seed ^ 0xC17);
     let imm: Tr = Some((0xFF, 0));
-    let letters = |rng: &mut Rng| -> Spec {
+    // review C17 gap 1: what is requested and what plays must be able to differ — finite loops with SyncIdx / GPIO /
+    // SysTime transitions (pending until the index wraps / the pin rises / the time comes), finite loops that stop,
+    // swaps with those modes, and the GPIO input datagram that lets a pending GPIO transition fire
+    let pick_tr = |rng: &mut Rng, now: u64, finite: bool| -> Tr {
+        if !finite {
+            return match rng.below(4) {
+                0 => None,
+                1 => Some((0xF0, 0)),
+                _ => imm,
+            };
+        }
+        match rng.below(6) {
+            0 => None,
+            1 => imm, // refused by the firmware for a finite loop to the other segment: the state byte must not move
+            2 | 3 => Some((0x00, 0)),
+            4 => Some((0x02, rng.below(4))),
+            _ => Some((0x01, now + *rng.pick(&[2_000_000u64, 20_000_000, 500_000_000]))),
+        }
+    };
+    let letters = |rng: &mut Rng, now: u64, ndev: usize| -> Spec {
         let seg = rng.below(2) as u8;
-        match rng.below(12) {
+        let finite = rng.chance(1, 2);
+        let rep: u16 = if finite { rng.below(4) as u16 } else { 0xFFFF };
+        let fin2 = rng.chance(1, 2);
+        match rng.below(16) {
             0 => Spec::Gain { seg, tr: imm, seed: rng.next() % 100 },
             1 => Spec::Gain { seg, tr: None, seed: rng.next() % 100 },
-            2 => Spec::Foci { n: rng.range(1, 8) as usize, seg, tr: imm, rep: 0xFFFF, div: 100, ss: 21760, size: rng.range(2, 9) as usize, seed: 5 },
-            3 => Spec::GainStm { mode: rng.below(3) as u8, seg, tr: if rng.chance(1, 2) { imm } else { None }, rep: 0xFFFF, div: 100, size: rng.range(2, 6) as usize, seed: 6 },
-            4 => Spec::Mod { seg, tr: if rng.chance(2, 3) { imm } else { None }, rep: 0xFFFF, div: 10, n: rng.range(2, 700) as usize, seed: 7 },
-            5 => Spec::SwapMod(seg, (0xFF, 0)),
-            6 => Spec::SwapGain(seg, (0xFF, 0)),
-            7 => Spec::SwapFoci(seg, (0xFF, 0)),
-            8 => Spec::SwapGainStm(seg, (0xFF, 0)),
-            9 => Spec::Reads(rng.chance(2, 3)),
-            10 => Spec::Clear,
+            2 => Spec::Foci { n: rng.range(1, 8) as usize, seg, tr: pick_tr(rng, now, finite), rep, div: *rng.pick(&[100u16, 2000]), ss: 21760, size: rng.range(2, 9) as usize, seed: 5 },
+            3 => Spec::GainStm { mode: rng.below(3) as u8, seg, tr: pick_tr(rng, now, finite), rep, div: *rng.pick(&[100u16, 2000]), size: rng.range(2, 6) as usize, seed: 6 },
+            4 | 5 => Spec::Mod { seg, tr: pick_tr(rng, now, finite), rep, div: *rng.pick(&[10u16, 400]), n: rng.range(2, 700) as usize, seed: 7 },
+            6 => Spec::SwapMod(seg, pick_tr(rng, now, fin2).unwrap_or((0xFF, 0))),
+            7 => Spec::SwapGain(seg, (0xFF, 0)),
+            8 => Spec::SwapFoci(seg, pick_tr(rng, now, fin2).unwrap_or((0xFF, 0))),
+            9 => Spec::SwapGainStm(seg, pick_tr(rng, now, fin2).unwrap_or((0xFF, 0))),
+            10 => Spec::Reads(rng.chance(2, 3)),
+            // review C17 gap 3: the reads flag per device
+            11 => Spec::ReadsMask(rng.below(1 << ndev) as u8),
+            12 => Spec::Clear,
+            13 | 14 => Spec::GpioIn(rng.below(16) as u8),
             _ => Spec::Fan(rng.chance(1, 2)),
         }
     };
     let ncases = if thorough { 1500 } else { 200 };
     for c in 0..ncases {
-        let ndev = rng.range(1, 3) as usize;
+        let ndev = rng.range(1, 4) as usize;
         let mut s = Session::new(&mut out, ndev, T0);
         s.send(&Spec::Clear);
         s.send(&Spec::SilSteps(1, 1, false));
+        // which devices have state reading enabled, maintained from the datagrams alone
+        let mut expected: Vec<bool> = vec![false; ndev];
         if c % 3 != 0 {
             s.send(&Spec::Reads(true));
+            expected = vec![true; ndev];
         }
         let mut verdict = None;
         let len = rng.range(3, 25);
         let mut desc = vec![];
+        let (mut pending_seen, mut stopped_seen) = (false, false);
         for k in 0..len {
             if rng.chance(1, 6) {
                 let on = rng.chance(1, 2);
-                s.thermo(0, on);
-                desc.push(format!("thermo{}", on as u8));
+                let d = rng.below(ndev as u64) as usize;
+                s.thermo(d, on);
+                desc.push(format!("thermo{d}{}", on as u8));
             } else if rng.chance(1, 8) {
-                // the controller's firmware_version(): five queries then the closing one
+                // the controller's firmware_version(): five queries then the closing one; the clock may tick in between
+                // (review C17 gap 4): while a query is outstanding `read_fpga_state` must leave the answer alone
                 let before = s.w.cpus.iter().map(|c| c.reads_fpga_state()).collect::<Vec<_>>();
                 let mut versions = vec![];
+                let ticking = rng.chance(2, 3);
                 for ty in 1..=5u8 {
                     s.send(&Spec::FirmInfo(ty));
+                    if s.dead {
+                        break;
+                    }
+                    if ticking {
+                        let t = s.w.t + *rng.pick(&[0u64, 1_000, 500_000, 30_000_000]);
+                        s.clk(t);
+                        if s.dead {
+                            break;
+                        }
+                    }
                     versions.push(s.w.cpus.iter().map(|c| c.rx().data()).collect::<Vec<_>>());
                 }
+                if s.dead {
+                    break;
+                }
                 s.send(&Spec::FirmInfo(6));
-                desc.push("firmware_version".into());
+                desc.push(if ticking { "firmware_version+clk".into() } else { "firmware_version".to_string() });
                 let after = s.w.cpus.iter().map(|c| c.reads_fpga_state()).collect::<Vec<_>>();
                 if before != after && verdict.is_none() {
                     verdict = Some(format!("state reading flags {before:?} became {after:?} across firmware_version (step {})", k + 1));
                 }
                 for (d, _) in s.w.cpus.iter().enumerate() {
                     let v: Vec<u8> = versions.iter().map(|x| x[d]).collect();
-                    if (v[0], v[1], v[2], v[3]) != (0xA3, 0x00, 0xA3, 0x00) && verdict.is_none() {
+                    if v != [0xA3, 0x00, 0xA3, 0x00, 0x80] && verdict.is_none() {
                         verdict = Some(format!("dev {d}: firmware_version returned {v:?}"));
                     }
                 }
             } else {
-                let sp = letters(&mut rng);
+                let sp = letters(&mut rng, s.w.t, ndev);
                 desc.push(sp.kind().to_string());
-                s.send(&sp);
+                let ans = s.send(&sp);
+                if ans.starts_with("R=ok") {
+                    match &sp {
+                        Spec::Reads(b) => expected = vec![*b; ndev],
+                        Spec::ReadsMask(m) => expected = (0..ndev).map(|d| (m >> d) & 1 == 1).collect(),
+                        Spec::Clear => expected = vec![false; ndev],
+                        _ => {}
+                    }
+                }
             }
             if s.dead {
                 break;
             }
-            let t = s.w.t + *rng.pick(&[0u64, 1_000, 1_000_000]);
+            let t = s.w.t + *rng.pick(&[0u64, 1_000, 1_000_000, 30_000_000, 1_000_000_000]);
             s.clk(t);
             if s.dead {
                 break;
@@ -483,20 +777,43 @@ pub fn run_c17(args: &Args) {
                     verdict = Some(format!("after step {} ({}): {m}", k + 1, desc.last().unwrap()));
                 }
             }
+            if verdict.is_none() {
+                let got: Vec<bool> = s.w.cpus.iter().map(|c| c.reads_fpga_state()).collect();
+                if got != expected {
+                    verdict = Some(format!("after step {} ({}): state reading is enabled on {got:?}, the datagrams sent say {expected:?}", k + 1, desc.last().unwrap()));
+                }
+            }
+            // evidence that the new dimension is reached: requested segment differs from the playing one / a finite loop stopped
+            for cpu in &s.w.cpus {
+                let f = cpu.fpga();
+                if let Ok(true) = guarded(|| f.req_modulation_segment() != f.current_mod_segment() || f.req_stm_segment() != f.current_stm_segment()) {
+                    pending_seen = true;
+                }
+                if f.stm_loop_behavior(f.current_stm_segment()).rep() != 0xFFFF || f.modulation_loop_behavior(f.current_mod_segment()).rep() != 0xFFFF {
+                    stopped_seen = true;
+                }
+            }
         }
         let log = s.log.clone();
         let key = format!("C17:{}", desc.join("/"));
         out.case(Some(fnv64(key.as_bytes())));
         out.count(&format!("devices:{ndev}"));
+        if pending_seen {
+            out.count("history-with-requested!=playing-segment");
+        }
+        if stopped_seen {
+            out.count("history-playing-a-finite-loop");
+        }
         if let Some(what) = verdict {
             out.violation(key, what, log);
         }
     }
     controller_level(&mut out, &mut rng, if thorough { 300 } else { 40 });
-    out.sample("reset 2 … / send clear / send silsteps 1 1 0 / send reads 1 / send foci 3 1 255:0 … / clk / thermo 0 1 / send firminfo 1..6 / clk …".into());
+    version_fields(&mut out, &mut rng, if thorough { 200 } else { 40 });
+    out.sample("reset 2 … / send clear / send silsteps 1 1 0 / send reads 1 / send foci 3 1 0:0 2 … / clk / thermo 1 1 / send gpioin 5 / send firminfo 1..6 with clk in between / clk …".into());
     out.finish(
         "fw_c17",
-        "a case = a random history of writes/swaps with immediate transitions, per-device state reading, thermal sensor toggles and interleaved firmware_version query sequences; after every step + clock update the decoded state byte (FPGAState::from_rx) is compared with what the emulator is playing; distinct by history",
+        "a case = a random history of writes/swaps (infinite and finite loops; Immediate, Ext, SyncIdx, GPIO and SysTime transitions, so that the requested segment can differ from the playing one), GPIO input, per-device state reading (reads / readsmask), thermal sensor toggles on any device and interleaved firmware_version query sequences with clock ticks in between; after every step + clock update the decoded state byte (FPGAState::from_rx) is compared with what the emulator is playing and the per-device reads flag with what the datagrams said; distinct by history. Oracle-only parts: Controller-level cases (note ctl), every FirmwareVersion field through a link that answers distinguishable bytes (note ver)",
     );
 }
 
@@ -534,14 +851,21 @@ fn controller_level(out: &mut Out, rng: &mut Rng, ncases: usize) {
                 phase: std::num::NonZeroU16::MIN,
                 strict_mode: false,
             }));
-            let mut reads_mask = 0u32;
+            // review C17 gap 3: which devices have state reading enabled, maintained from what was sent: a reads-send
+            // (or Clear) reaches the devices that are enabled at that moment, each with its own flag
+            let mut expected: Vec<bool> = vec![false; ndev];
             for step in 0..rng.range(3, 14) {
-                match rng.below(9) {
-                    0 => {
-                        reads_mask = rng.below(1 << ndev) as u32;
-                        let m = reads_mask;
+                match rng.below(10) {
+                    0 | 9 => {
+                        let m = rng.below(1 << ndev) as u32;
                         desc.push(format!("reads{m:b}"));
-                        let _ = autd.send(ReadsFPGAState::new(move |dev| (m >> dev.idx()) & 1 == 1));
+                        if autd.send(ReadsFPGAState::new(move |dev| (m >> dev.idx()) & 1 == 1)).is_ok() {
+                            for dev in autd.geometry().iter().filter(|d| d.enable) {
+                                expected[dev.idx()] = (m >> dev.idx()) & 1 == 1;
+                            }
+                        } else {
+                            return None;
+                        }
                     }
                     1 => {
                         let d = rng.below(ndev as u64) as usize;
@@ -573,7 +897,8 @@ fn controller_level(out: &mut Out, rng: &mut Rng, ncases: usize) {
                             return Some(format!("firmware_version() returned devices {got:?}, enabled are {enabled:?}"));
                         }
                         for x in &v {
-                            if x.cpu.major.0 != 0xA3 || x.fpga.major.0 != 0xA3 || x.cpu.minor.0 != 0 || x.fpga.minor.0 != 0 {
+                            // review C17 gap 2: every field, the feature bits included (the emulator reports 0x80)
+                            if x.cpu.major.0 != 0xA3 || x.fpga.major.0 != 0xA3 || x.cpu.minor.0 != 0 || x.fpga.minor.0 != 0 || x.fpga.function_bits != 0x80 {
                                 return Some(format!("firmware_version() of device {}: {:?}", x.idx, x));
                             }
                         }
@@ -586,26 +911,52 @@ fn controller_level(out: &mut Out, rng: &mut Rng, ncases: usize) {
                         }
                     }
                     _ => {
+                        // review C17 gap 5: the model-level alphabet restricted to what does not depend on the (wall) clock of
+                        // the Audit link: infinite loops, Immediate transitions, writes without transition followed by a swap
                         let seg = rng.below(2) as u8;
-                        let sp = match rng.below(6) {
-                            0 => Spec::Gain { seg, tr: Some((0xFF, 0)), seed: 1 },
-                            1 => Spec::Foci { n: rng.range(1, 8) as usize, seg, tr: Some((0xFF, 0)), rep: 0xFFFF, div: 100, ss: 21760, size: 3, seed: 2 },
-                            2 => Spec::GainStm { mode: 0, seg, tr: Some((0xFF, 0)), rep: 0xFFFF, div: 100, size: 2, seed: 3 },
-                            3 => Spec::Mod { seg, tr: Some((0xFF, 0)), rep: 0xFFFF, div: 10, n: 5, seed: 4 },
-                            4 => Spec::SwapMod(seg, (0xFF, 0)),
-                            _ => Spec::SwapGain(seg, (0xFF, 0)),
+                        let imm = Some((0xFFu8, 0u64));
+                        let sps: Vec<Spec> = match rng.below(12) {
+                            0 => vec![Spec::Gain { seg, tr: imm, seed: 1 }],
+                            1 => vec![Spec::Foci { n: rng.range(1, 8) as usize, seg, tr: imm, rep: 0xFFFF, div: 100, ss: 21760, size: 3, seed: 2 }],
+                            2 => vec![Spec::GainStm { mode: rng.below(3) as u8, seg, tr: imm, rep: 0xFFFF, div: 100, size: rng.range(2, 5) as usize, seed: 3 }],
+                            3 => vec![Spec::Mod { seg, tr: imm, rep: 0xFFFF, div: 10, n: rng.range(2, 700) as usize, seed: 4 }],
+                            4 => vec![Spec::SwapMod(seg, (0xFF, 0))],
+                            5 => vec![Spec::SwapGain(seg, (0xFF, 0))],
+                            6 => vec![Spec::SwapFoci(seg, (0xFF, 0))],
+                            7 => vec![Spec::SwapGainStm(seg, (0xFF, 0))],
+                            8 => vec![Spec::Clear],
+                            9 => vec![Spec::Foci { n: 2, seg, tr: None, rep: 0xFFFF, div: 100, ss: 21760, size: 4, seed: 5 }, Spec::SwapFoci(seg, (0xFF, 0))],
+                            10 => vec![Spec::GainStm { mode: 1, seg, tr: None, rep: 0xFFFF, div: 100, size: 2, seed: 6 }, Spec::SwapGainStm(seg, (0xFF, 0))],
+                            _ => vec![Spec::Mod { seg, tr: None, rep: 0xFFFF, div: 10, n: 5, seed: 7 }, Spec::Gain { seg, tr: None, seed: 8 }, Spec::SwapMod(seg, (0xFF, 0)), Spec::SwapGain(seg, (0xFF, 0))],
                         };
-                        desc.push(sp.kind().into());
-                        let _ = build(&sp, CtlSend { autd: &mut autd });
+                        for sp in sps {
+                            desc.push(sp.kind().into());
+                            let r = build(&sp, CtlSend { autd: &mut autd });
+                            if matches!(sp, Spec::Clear) {
+                                if r.is_ok() {
+                                    for dev in autd.geometry().iter().filter(|d| d.enable) {
+                                        expected[dev.idx()] = false;
+                                    }
+                                } else {
+                                    return None;
+                                }
+                            }
+                        }
                     }
                 }
                 let st = match autd.fpga_state() {
                     Ok(s) => s,
                     Err(e) => return Some(format!("fpga_state() failed: {e:?}")),
                 };
+                if st.len() != ndev {
+                    return Some(format!("fpga_state() returned {} entries for {ndev} devices", st.len()));
+                }
                 for i in 0..ndev {
                     let cpu = &autd.link()[i];
                     let f = cpu.fpga();
+                    if st[i].is_some() != expected[i] {
+                        return Some(format!("device {i}: fpga_state() is {:?} but the ReadsFPGAState / Clear datagrams sent so far say reading is {} there (step {step})", st[i], if expected[i] { "enabled" } else { "disabled" }));
+                    }
                     match (cpu.reads_fpga_state(), st[i]) {
                         (false, None) => {}
                         (true, Some(s)) => {
@@ -632,6 +983,95 @@ fn controller_level(out: &mut Out, rng: &mut Rng, ncases: usize) {
             Ok(None) => {}
             Ok(Some(m)) => out.violation(format!("C17:ctl:{}", desc.join("/")), m, desc.clone()),
             Err(p) => out.violation(format!("C17:ctl-panic:{}", panic_key(&p)), format!("panic through the Controller: {p}"), desc.clone()),
+        }
+    }
+}
+
+// ---- every field of `FirmwareVersion` (review C17 gap 2): all emulators answer the same bytes (0xA3 / 0x00 twice), so a
+// mix-up of the five queries or of the device index cannot show. This link keeps real emulators (acks, message ids) but
+// replaces the data byte of every answered FirmInfo query of type t on device i by 0x20 * t + i.
+struct VerLink {
+    cpus: Vec<autd3_firmware_emulator::CPUEmulator>,
+    open: bool,
+    ty: Vec<u8>,
+}
+impl autd3_core::link::Link for VerLink {
+    fn open(&mut self, _: &Geometry) -> Result<(), autd3_core::link::LinkError> {
+        self.open = true;
+        Ok(())
+    }
+    fn close(&mut self) -> Result<(), autd3_core::link::LinkError> {
+        self.open = false;
+        Ok(())
+    }
+    fn send(&mut self, tx: &[autd3_driver::firmware::cpu::TxMessage]) -> Result<(), autd3_core::link::LinkError> {
+        for (i, c) in self.cpus.iter_mut().enumerate() {
+            let before = c.rx().ack();
+            c.send(tx);
+            let p = tx[i].payload();
+            // a frame this device has just processed (new ack) decides what its data byte means
+            if c.rx().ack() != before {
+                self.ty[i] = if p[0] == 0x03 && (1..=5).contains(&p[1]) { p[1] } else { 0 };
+            }
+        }
+        Ok(())
+    }
+    fn receive(&mut self, rx: &mut [autd3_driver::firmware::cpu::RxMessage]) -> Result<(), autd3_core::link::LinkError> {
+        for (i, c) in self.cpus.iter_mut().enumerate() {
+            c.update();
+            let r = c.rx();
+            rx[i] = if self.ty[i] != 0 { autd3_driver::firmware::cpu::RxMessage::new(0x20 * self.ty[i] + i as u8, r.ack()) } else { r };
+        }
+        Ok(())
+    }
+    fn is_open(&self) -> bool {
+        self.open
+    }
+}
+
+fn version_fields(out: &mut Out, rng: &mut Rng, ncases: usize) {
+    for c in 0..ncases {
+        let ndev = rng.range(1, 4) as usize;
+        // every mask for up to 3 devices comes up quickly; never all disabled (nothing to ask)
+        let mask: Vec<bool> = loop {
+            let m: Vec<bool> = (0..ndev).map(|_| rng.chance(2, 3)).collect();
+            if m.iter().any(|b| *b) {
+                break m;
+            }
+        };
+        let desc = format!("n{ndev}:mask{}", mask.iter().map(|b| if *b { '1' } else { '0' }).collect::<String>());
+        let r = guarded(|| -> Option<String> {
+            let cpus = (0..ndev).map(|i| autd3_firmware_emulator::CPUEmulator::new(i, NUM_TR)).collect();
+            let mut autd = Controller::open((0..ndev).map(|_| AUTD3::default()), VerLink { cpus, open: false, ty: vec![0; ndev] }).ok()?;
+            for (i, en) in mask.iter().enumerate() {
+                autd.geometry_mut()[i].enable = *en;
+            }
+            let v = match autd.firmware_version() {
+                Ok(v) => v,
+                Err(e) => return Some(format!("firmware_version() failed: {e:?}")),
+            };
+            let want: Vec<usize> = (0..ndev).filter(|i| mask[*i]).collect();
+            let got: Vec<usize> = v.iter().map(|x| x.idx).collect();
+            if got != want {
+                return Some(format!("firmware_version() returned devices {got:?}, enabled are {want:?}"));
+            }
+            for x in &v {
+                let i = x.idx as u8;
+                let fields = [x.cpu.major.0, x.cpu.minor.0, x.fpga.major.0, x.fpga.minor.0, x.fpga.function_bits];
+                let exp = [0x20 + i, 0x40 + i, 0x60 + i, 0x80 + i, 0xA0 + i];
+                if fields != exp {
+                    return Some(format!("device {}: [cpu major, cpu minor, fpga major, fpga minor, function bits] = {fields:02x?}, the link answered {exp:02x?}", x.idx));
+                }
+            }
+            None
+        });
+        out.line(&format!("note ver {c}"), "ok");
+        out.case(Some(fnv64(desc.as_bytes())));
+        out.count("version-fields");
+        match r {
+            Ok(None) => {}
+            Ok(Some(m)) => out.violation(format!("C17:version-fields:{desc}"), m, vec![desc.clone()]),
+            Err(p) => out.violation(format!("C17:version-fields-panic:{}", panic_key(&p)), format!("panic: {p}"), vec![desc.clone()]),
         }
     }
 }
